@@ -70,6 +70,9 @@ fn scripts(quick: bool) -> Vec<(Vec<(usize, Step)>, usize)> {
     out.push((sequential(&[vec![send(&[("/t1", 22222223, true), ("/t1", 4, true), ("/t1", 55555, true), ("/t1", 6, true), ("/t1", 7, false)])]]), 1));
     out.push((sequential(&[vec![send(&[("/t1", 9, true), ("/t2", 1, false), ("/t1", 10, true), ("/t2", 22222224, true), ("/t1", 11, false), ("/t2", 3, true)])]]), 1));
     out.push((sequential(&[vec![sendh(&[("x", 1, true), ("y", 2, true), ("x", 22222225, true), ("y", 33333, true), ("x", 3, false), ("y", 4, false)])]]), 1));
+    // registered commanders: one created in on_start (c0 -> /t0), others while the agent runs
+    out.push((sequential(&[vec![act(&["@mkc{name:c1,node:\"/t1\",lane:x}"]), act(&["@sendc{name:c0,value:1,ow:false}", "@sendc{name:c1,value:2,ow:false}", "@sendc{name:c0,value:3,ow:false}", "@sendc{name:c1,value:4,ow:false}", "@sendc{name:c0,value:5,ow:false}"])]]), 1));
+    out.push((sequential(&[vec![act(&["@sendc{name:c0,value:1,ow:true}"]), act(&["@mkc{name:c1,node:\"/t1\",lane:y}", "@sendc{name:c1,value:22222222,ow:true}", "@sendc{name:c0,value:3,ow:true}", "@sendc{name:c1,value:4,ow:false}"]), act(&["@mkc{name:c2,node:\"/t0\",lane:z}", "@sendc{name:c2,value:5,ow:false}", "@sendc{name:c0,value:6,ow:false}"])]]), 1));
     // several lanes behind one remote host: interleaved targets buffered in one batch
     out.push((sequential(&[vec![sendh(&[("x", 41, false), ("y", 42, false), ("x", 43, false)])]]), 1));
     out.push((sequential(&[vec![sendh(&[("x", 44, false)]), sendh(&[("y", 45, false), ("x", 46, true), ("y", 47, false), ("x", 48, false)])]]), 1));
